@@ -111,7 +111,8 @@ def handle (j : Json) : Json :=
               ("ty", match t with
                 | some T => ofTy T
                 | none => Json.null),
-              ("fragment", inFragment s),
+              ("fragment", inFragmentW s),
+              ("emptyName", KnownDefect.emptyName s),
               ("degenerate", KnownDefect.degenerate s),
               ("defects", match t with
                 | some T => strs ((if KnownDefect.maxPropsZero T then ["max-properties-zero"] else []) ++
